@@ -1,5 +1,126 @@
+import NA.Model.MaskSinks
 import NA.Core.IOUtil
-/-! Driver stub for C17 (not built yet): echoes its input. -/
+/-! Driver for C17.  One case per line, fields separated by TAB, every string argument hex encoded
+(two lower-case hex digits per byte; byte `b` becomes `Char.ofNat b`).
+
+  pass  S            -> hex (maskPass S)
+  api   S            -> hex (maskApi S)
+  key   S            -> hex (maskKey S)
+  esc   S            -> hex (queryEscape S)
+  unesc S            -> hex (queryUnescape S) | ERR
+  dolog S            -> hex (doLog S)
+  enc   K1 V1 K2 V2… -> hex (valuesEncode [(K1,V1),…])
+  keygen ADDR USER PASS KIND A B  -> model of getAPIKey, see `NA.Mask.keygen`
+  prefixget PREFIX URI KIND A B   -> model of httpPrefixGetLog
+  panos / nsx / ssh / doapprove   -> whole-run sink models, see `NA.Mask` in MaskSinks.lean
+-/
+namespace NA.Drv.C17
+open NA.Mask NA.IOUtil
+
+def hexNib (c : Char) : Option Nat :=
+  if '0' ≤ c ∧ c ≤ '9' then some (c.toNat - 48)
+  else if 'a' ≤ c ∧ c ≤ 'f' then some (c.toNat - 87)
+  else none
+
+def unhexL : List Char → Option Str
+  | [] => some []
+  | a :: b :: r => do
+    let x ← hexNib a
+    let y ← hexNib b
+    let t ← unhexL r
+    pure (Char.ofNat (16 * x + y) :: t)
+  | _ => none
+
+def unhex (s : String) : Option Str := if s == "-" then some [] else unhexL s.toList
+
+def nib (n : Nat) : Char := "0123456789abcdef".toList.getD n '?'
+
+def hex (s : Str) : String :=
+  if s.isEmpty then "-" else
+  String.ofList (s.flatMap fun c => if c.toNat < 256 then [nib (c.toNat / 16), nib (c.toNat % 16)] else ['?', '?'])
+
+def hexLines (ls : List Str) : String := ",".intercalate (ls.map hex)
+
+def pairs : List Str → Option (List (Str × Str))
+  | [] => some []
+  | k :: v :: r => (pairs r).map ((k, v) :: ·)
+  | _ => none
+
+def parseReply (kind : String) (a b : Str) : Option Reply :=
+  match kind with
+  | "terr" => some (.terr a)
+  | "status" => (String.ofList a).toNat?.map fun n => .status n b
+  | "ok" => some (.ok a)
+  | "fail" => some (.fail a b)
+  | _ => none
+
+def showSinks (s : Sinks) : String :=
+  s!"login={hexLines s.login}\tconfig={hexLines s.config}\tchange={hexLines s.change}\trunlog={hexLines s.runlog}"
+
+/-- replies: `kind:hexA:hexB` separated by `;` -/
+def parseReplies (s : String) : Option (List Reply) :=
+  if s == "-" then some [] else
+  (s.splitOn ";").mapM fun r =>
+    match r.splitOn ":" with
+    | [k, a, b] => do
+      let a ← unhex a
+      let b ← unhex b
+      parseReply k a b
+    | _ => none
+
+def parseReqs (s : String) : Option (List Req) :=
+  if s == "-" then some [] else
+  (s.splitOn ";").mapM fun r =>
+    match r.splitOn ":" with
+    | [lg, uri, wrap] => do
+      let uri ← unhex uri
+      let wrap ← unhex wrap
+      let lg ← match lg with | "login" => some Log.login | "config" => some Log.config | "change" => some Log.change | _ => none
+      pure { log := lg, uri := uri, wrap := wrap }
+    | _ => none
+
+def answer (line : String) : String :=
+  match splitTab line with
+  | cmd :: args =>
+    match args.mapM unhex with
+    | none =>
+      -- commands with structured (non-hex) arguments
+      match cmd, args with
+      | "panos", [addr, user, pass, name, ip, kg, key, reqs, reps] =>
+        match unhex addr, unhex user, unhex pass, unhex name, unhex ip, parseReplies kg, unhex key, parseReqs reqs, parseReplies reps with
+        | some addr, some user, some pass, some name, some ip, some [kg], some key, some reqs, some reps =>
+          showSinks (panosRun addr user pass name ip kg key reqs reps)
+        | _, _, _, _, _, _, _, _, _ => "bad-input"
+      | _, _ => "bad-input"
+    | some as =>
+      match cmd, as with
+      | "pass", [s] => hex (maskPass s)
+      | "api", [s] => hex (maskApi s)
+      | "key", [s] => hex (maskKey s)
+      | "esc", [s] => hex (queryEscape s)
+      | "unesc", [s] => match queryUnescape s with | some r => hex r | none => "ERR"
+      | "dolog", [s] => hex (doLog s)
+      | "quote", [s] => hex (goQuote s)
+      | "enc", kvs => match pairs kvs with | some l => hex (valuesEncode l) | none => "bad-input"
+      | "keygen", [addr, user, pass, kind, a, b] =>
+        match parseReply (String.ofList kind) a b with
+        | some r =>
+          let o := keygen addr user pass r
+          s!"log={hexLines o.1}\terr={match o.2 with | some e => hex e | none => "none"}"
+        | none => "bad-input"
+      | "prefixget", [pre, uri, kind, a, b] =>
+        match parseReply (String.ofList kind) a b with
+        | some r =>
+          let o := prefixGet pre uri r
+          s!"log={hexLines o.1}\terr={match o.2 with | some e => hex e | none => "none"}"
+        | none => "bad-input"
+      | "nsxlogin", [pre, user, pass, status] => hexLines (nsxLoginLog pre user pass status)
+      | "sshlog", outs => hex (sshLog outs)
+      | _, _ => "bad-input"
+  | [] => "bad-input"
+
+end NA.Drv.C17
+
 def main (_ : List String) : IO UInt32 := do
-  NA.IOUtil.eachLine id
+  NA.IOUtil.eachLine NA.Drv.C17.answer
   return 0
